@@ -203,6 +203,8 @@ func c04(c *Ctx) {
 	r.Rule("R4.1", "path-sensitive dataflow over Seek's CFG: at every return the position field is unchanged or holds a value proven >= 0 on that path (sign tests, len/copy, non-negative constants, sums of non-negatives, non-narrowing conversions); a negativity test on the prospective position leads only to error returns")
 	r.Rule("R4.2", "if Read lazily builds a stream field (store guarded by field==nil), every path of another method that stores the position field ends with that stream field nil")
 	r.Rule("R4.3", "on every path of Read returning a count n that may be non-zero, the position field is stored old+n with n the returned SSA value")
+	r.Rule("R4.6", "a Seek answers for the whence it was given: every path of a file reader's Seek to a return that may carry a nil error has branched on the whence parameter, or returns the results of an inner Seek that received (offset, whence) unchanged — a shortcut that looks only at the offset is wrong for two of the three origins")
+	r.Rule("R4.7", "a reader handed out by the size query is positioned at the start: on every return of a non-nil reader the last Seek issued on it is Seek(0, io.SeekStart) (the stream builder splices that reader in as the child's segment)")
 	r.Rule("R4.5", "no Reader/Seeker is ever stored into the state of a file node type (field, map entry or slice element of a type that hands out readers but is not itself a reader): cursors obtained separately share nothing mutable")
 	r.Rule("R4.4", "every AsLargeBytes in package file returns an object allocated in that call (or the result of another AsLargeBytes); never a value loaded from a field or global; no Reader/Seeker loaded from the receiver is embedded in it")
 	r.Assumes = append(r.Assumes, "integer overflow of position arithmetic is not modelled (sum of non-negatives treated as non-negative)", "entry value of the position field is >= 0 (inductive hypothesis; base case: allocation sites store constants)")
@@ -241,6 +243,8 @@ func c04(c *Ctx) {
 	r.Floor("R4.4", n44, 3)
 	r.Analysed["reader_types"] = len(rts)
 	c.checkNoCursorInNode()
+	c.checkWhenceExamined()
+	c.checkSizeQueryRewinds("R4.7")
 }
 
 func (c *Ctx) fieldOfAddr(fn *ssa.Function, addr ssa.Value) *types.Var {
@@ -755,4 +759,172 @@ func (c *Ctx) checkNoCursorInNode() {
 		r.OK("R4.5", "file/node-state", "-", fmt.Sprintf("%d stores into file node state examined: none stores a Reader/Seeker", nstores))
 	}
 	r.Floor("R4.5", nstores, 4)
+}
+
+// checkWhenceExamined implements R4.6.
+func (c *Ctx) checkWhenceExamined() {
+	r := c.R
+	n := 0
+	for _, fn := range c.G.Funcs() {
+		rel, ok := c.P.PkgOf(fn)
+		if !ok || rel != "file" || fn.Synthetic != "" || !seekSig(fn) || len(fn.Params) < 3 {
+			continue
+		}
+		n++
+		offsetP, whenceP := ssa.Value(fn.Params[1]), ssa.Value(fn.Params[2])
+		key := core.FuncName(fn) + "/whence-examined"
+		mentions := func(v ssa.Value, p ssa.Value) bool {
+			seen := map[ssa.Value]bool{}
+			var rec func(v ssa.Value, d int) bool
+			rec = func(v ssa.Value, d int) bool {
+				if v == nil || seen[v] || d > 6 {
+					return false
+				}
+				seen[v] = true
+				if v == p {
+					return true
+				}
+				switch x := v.(type) {
+				case *ssa.BinOp:
+					return rec(x.X, d+1) || rec(x.Y, d+1)
+				case *ssa.UnOp:
+					return rec(x.X, d+1)
+				case *ssa.Convert:
+					return rec(x.X, d+1)
+				}
+				return false
+			}
+			return rec(v, 0)
+		}
+		var bad []string
+		complete := core.EnumPaths(fn, 2, 60000, func(path []*ssa.BasicBlock) {
+			examined := false
+			for i, b := range path {
+				if i+1 < len(path) {
+					if cond, _, ok := core.BranchTaken(b, path[i+1]); ok && mentions(cond, whenceP) {
+						examined = true
+					}
+				}
+				// whence handed to a repository helper that branches on it (the origin arithmetic in a helper)
+				for _, ins := range b.Instrs {
+					call, isCall := ins.(*ssa.Call)
+					if !isCall {
+						continue
+					}
+					h := call.Call.StaticCallee()
+					if h == nil || len(h.Blocks) == 0 {
+						continue
+					}
+					if _, isRepo := c.P.PkgOf(h); !isRepo {
+						continue
+					}
+					for ai, a := range call.Call.Args {
+						if a != whenceP || ai >= len(h.Params) {
+							continue
+						}
+						for _, hb := range h.Blocks {
+							if iff := core.BlockIf(hb); iff != nil && mentions(iff.Cond, ssa.Value(h.Params[ai])) {
+								examined = true
+							}
+						}
+					}
+				}
+				if len(b.Instrs) == 0 {
+					continue
+				}
+				ret, isRet := b.Instrs[len(b.Instrs)-1].(*ssa.Return)
+				if !isRet || examined {
+					continue
+				}
+				rr := core.ResolvedResults(ret)
+				if core.ErrKnownNonNil(rr[1], core.PathNonNil(path, i)) {
+					continue
+				}
+				// delegation: both results come from one inner Seek call that received offset and whence unchanged
+				if ex, isEx := rr[1].(*ssa.Extract); isEx {
+					if call, isCall := ex.Tuple.(*ssa.Call); isCall {
+						name, _ := methodCall(call)
+						args := call.Call.Args
+						if name == "Seek" && len(args) >= 2 && args[len(args)-1] == whenceP && args[len(args)-2] == offsetP {
+							continue
+						}
+					}
+				}
+				bad = append(bad, fmt.Sprintf("return at %s may report success without having looked at whence", c.P.Pos(ret.Pos())))
+			}
+		})
+		if !complete {
+			r.Undecided("R4.6", key, c.P.Pos(fn.Pos()), "path enumeration exceeded its bound")
+			continue
+		}
+		r.Check(len(bad) == 0, "R4.6", key, c.P.Pos(fn.Pos()), "every successful path branches on whence or delegates (offset, whence) to an inner Seek", uniqJoin(bad))
+	}
+	r.Floor("R4.6", n, 3)
+}
+
+// sizeQueries: functions of package file that return an integer size together with a ReadSeeker (the child opened to
+// measure it) and an error.
+func (c *Ctx) sizeQueries() []*ssa.Function {
+	var out []*ssa.Function
+	for _, fn := range c.G.Funcs() {
+		rel, ok := c.P.PkgOf(fn)
+		if !ok || rel != "file" || fn.Synthetic != "" {
+			continue
+		}
+		res := fn.Signature.Results()
+		if res.Len() != 3 || !isIntegerType(res.At(0).Type()) || !core.IsErrorType(res.At(2).Type()) || !isCursorT(res.At(1).Type()) {
+			continue
+		}
+		out = append(out, fn)
+	}
+	return out
+}
+
+// checkSizeQueryRewinds implements R4.7 (and R6.6 under C06).
+func (c *Ctx) checkSizeQueryRewinds(rule string) {
+	r := c.R
+	n := 0
+	for _, q := range c.sizeQueries() {
+		n++
+		key := core.FuncName(q) + "/reader-rewound"
+		var bad []string
+		complete := core.EnumPaths(q, 2, 100000, func(path []*ssa.BasicBlock) {
+			state := map[ssa.Value]string{}
+			for _, b := range path {
+				for _, ins := range b.Instrs {
+					switch x := ins.(type) {
+					case *ssa.Call:
+						name, recv := methodCall(x)
+						if name != "Seek" || recv == nil {
+							continue
+						}
+						args := x.Call.Args
+						off, ok1 := core.ConstInt(args[len(args)-2])
+						wh, ok2 := core.ConstInt(args[len(args)-1])
+						switch {
+						case ok1 && ok2 && off == 0 && wh == 0:
+							state[recv] = "start"
+						default:
+							state[recv] = "moved"
+						}
+					case *ssa.Return:
+						rr := core.ResolvedResults(x)
+						rd := rr[1]
+						if core.IsNilConst(rd) {
+							continue
+						}
+						if st, seen := state[rd]; seen && st != "start" {
+							bad = append(bad, fmt.Sprintf("return at %s hands out a reader that was moved and not put back with Seek(0, io.SeekStart)", c.P.Pos(x.Pos())))
+						}
+					}
+				}
+			}
+		})
+		if !complete {
+			r.Undecided(rule, key, c.P.Pos(q.Pos()), "path enumeration exceeded its bound")
+			continue
+		}
+		r.Check(len(bad) == 0, rule, key, c.P.Pos(q.Pos()), "every reader handed out was last positioned with Seek(0, io.SeekStart)", uniqJoin(bad))
+	}
+	r.Floor(rule, n, 1)
 }
